@@ -43,6 +43,13 @@ Theorem C19_dir_pattern : forall ps d pre post isd,
 Proof. exact gi_dir_pattern. Qed.
 Print Assumptions C19_dir_pattern.
 
+(** The same law on the text of the ignore file: a line "d/" with d a plain name. *)
+Theorem C19_dir_line : forall lines d pre post isd,
+  no_neg (parse_lines lines) = true -> In (d ++ [47]) lines -> plain_name d = true -> post <> [] ->
+  gi_ignored (parse_lines lines) (pre ++ d :: post) isd = true.
+Proof. exact gi_dir_line. Qed.
+Print Assumptions C19_dir_line.
+
 (** README: a glob line such as "*.hql" ignores ALL matching files, at any depth. *)
 Theorem C19_glob_pattern : forall ps g pre name isd,
   no_neg ps = true -> In {| p_neg := false; p_dir := false; p_comps := [CDStar; CGlob g] |} ps ->
